@@ -55,6 +55,7 @@ ROUTES = (
     "CreateWithQuantity(q,values=,dimension=)", "CreateWithQuantity(q,value=,dimension=)", "CreateWithQuantity(q,values)", "CreateWithQuantity(q,values,None,d)",
     "CreateEmptyArray(d)", "CreateEmptyArray(d,values)", "reduce-args(d replaced)", "CreateCopy(values=)", "CreateCopy(values=,unit=)", "CreateCopy(values=,unit=,category=)",
     "FromScalars", "Array-subclass-route:cls(values=,unit=,category=)",
+    "CreateCopy(values=,unit=) of a category-less array", "CreateCopy(values=) of a category-less array", "CreateCopy(values=,unit=) of a dimensionless quotient",
 )  # fmt: skip
 
 
@@ -110,7 +111,7 @@ def run_route(route, d, n, kind, u, c, r):
         fn, args = a.__reduce__()
         args = (d,) + tuple(args[1:])
         return (lambda: fn(*args)), ok_dn, d, src + [("array", a)]
-    if route.startswith("CreateCopy(values="):
+    if route.startswith("CreateCopy(values=") and "category-less" not in route and "quotient" not in route:
         if d < 2:
             return None
         a = FixedArray(d, q, cont(vals_for(r, d, kind), r.choice(KINDS[:3])))
@@ -119,6 +120,19 @@ def run_route(route, d, n, kind, u, c, r):
             kw["unit"] = r.choice([x for x, cc in UC if cc == c or (x, c) in UC or _same_type(x, u)])
         if "category=" in route:
             kw["category"] = c
+        return (lambda: a.CreateCopy(values=v, **kw)), n == d, d, src + [("array", a)]
+    if "category-less" in route or "dimensionless quotient" in route:
+        # sources without a category: an array of an empty quantity, and what array / array leaves
+        if d < 2:
+            return None
+        if "quotient" in route:
+            fa = FixedArray(d, q, cont([1.0 + i for i in range(d)], r.choice(KINDS[:3])))
+            a = fa / fa
+        else:
+            a = FixedArray.CreateEmptyArray(d, cont(vals_for(r, d, "list"), r.choice(KINDS[:3])))
+            if r.random() < 0.3:
+                a = a.CreateCopy()
+        kw = {"unit": u} if "unit=" in route else {}
         return (lambda: a.CreateCopy(values=v, **kw)), n == d, d, src + [("array", a)]
     if route == "FromScalars":
         ss = [Scalar(c, x, u) for x in vals]
